@@ -50,7 +50,7 @@ ep_hash(const tp_ep *ep, uint64_t h)
 {
 	size_t cl = ep->cfg.role == 0 ? sizeof(br_ssl_client_context) : sizeof(br_ssl_server_context);
 	const void *c = ep->cfg.role == 0 ? (const void *)ep->cc : (const void *)ep->sc;
-	h = vf_fnv(c, cl, h);
+	h = vf_raw_fnv(c, cl, h);
 	h = vf_fnv(ep->buf, ep->buf_len > 6000 ? 2048 : ep->buf_len, h);
 	if (ep->buf_out) h = vf_fnv(ep->buf_out, ep->buf_out_len > 6000 ? 2048 : ep->buf_out_len, h);
 	h = vf_fnv(&ep->tx_done, sizeof ep->tx_done, h);
@@ -257,6 +257,14 @@ main(int argc, char **argv)
 			cc.buflen = sc.buflen = big ? BR_SSL_BUFSIZE_INPUT : 512 + 325;
 			cc.buflen_out = sc.buflen_out = big ? BR_SSL_BUFSIZE_OUTPUT : 512 + 85;
 		}
+		if (conf == 1 || conf == 2 || conf == 6) {   /* the three layouts at minimum size */
+			/* client authentication; the client keeps full-size buffers whatever the server has, so that a small
+			   server receives unencrypted handshake records (certificate chain) larger than its whole input buffer */
+			cc.client_auth = 1; sc.client_auth = 1;
+			if (cc.layout == TP_LAYOUT_MONO) cc.buflen = BR_SSL_BUFSIZE_MONO;
+			else if (cc.layout == TP_LAYOUT_SPLIT1) cc.buflen = BR_SSL_BUFSIZE_BIDI;
+			else { cc.buflen = BR_SSL_BUFSIZE_INPUT; cc.buflen_out = BR_SSL_BUFSIZE_OUTPUT; }
+		}
 		sl[0] = mode_suites[mode];
 		cc.suites = sl; cc.nsuites = 1;
 		cc.vmin = cc.vmax = mode_ver[mode];
@@ -272,7 +280,7 @@ main(int argc, char **argv)
 		}
 		W.c.tx_key = 0x1111 + (uint64_t)conf; W.s.tx_key = 0x2222 + (uint64_t)conf;
 		W.c.rx_key = W.s.tx_key; W.s.rx_key = W.c.tx_key;
-		vf_distinct("config", "%04x/%04x/l%d/b%d", sl[0], mode_ver[mode], layout, big);
+		vf_distinct("config", "%04x/%04x/l%d/b%d/ca%d", sl[0], mode_ver[mode], layout, big, cc.client_auth);
 
 		/* handshake phase: explore from every stride-th pump step */
 		for (;;) {
